@@ -1,6 +1,6 @@
 """Namespace module for dynamically declared data classes (their string annotations are
 resolved against this module's globals, as utype does for any module)."""
-from typing import List, Dict, Tuple, Set, Optional, Union, Any
+from typing import List, Dict, Tuple, Set, Optional, Union, Any, Final
 from decimal import Decimal
 import utype
 from utype import Schema, DataClass, Field, Options, Rule, Lax, Param
